@@ -71,6 +71,17 @@ impl Scenario {
         self.bound_max = self.bound_max.max(b);
         self
     }
+    /// default exploration depth policy of a tier: a guaranteed bound plus deepening while the next level fits
+    /// (runtime scenarios have 40-120 choice points per execution, component scenarios 10-40)
+    pub fn tier(self, quick: bool) -> Self {
+        let fine = !self.cfg.coarse;
+        match (quick, fine) {
+            (true, false) => self.bound(1).deepen(4, 6_000),
+            (true, true) => self.bound(2).deepen(5, 6_000),
+            (false, false) => self.bound(2).deepen(5, 120_000),
+            (false, true) => self.bound(3).deepen(6, 150_000),
+        }
+    }
     /// go deeper than `bound` (up to `max`) as long as the whole next level fits into `budget` executions
     pub fn deepen(mut self, max: usize, budget: u64) -> Self {
         self.bound_max = max.max(self.bound);
